@@ -131,9 +131,9 @@ Lemma convert_keys_ok ks : forall c c',
 Proof.
   induction ks as [|k0 r IH]; intros c c' H.
   - simpl in H. injection H as <-. split; [reflexivity|].
-    intro k. unfold conv_point. destruct (dget c k) as [[v|t]|]; reflexivity.
+    intro k. unfold conv_point. destruct (dget c k) as [[v|t|o]|]; reflexivity.
   - cbn [convert_keys] in H.
-    destruct (dget c k0) as [[v|t]|] eqn:G.
+    destruct (dget c k0) as [[v|t|o]|] eqn:G.
     + destruct (IH _ _ H) as [K P]. split; [exact K|]. intro k. specialize (P k).
       unfold conv_point in *. cbn [str_mem].
       destruct (str_eqb k0 k) eqn:E; [|exact P].
@@ -151,6 +151,10 @@ Proof.
       unfold conv_point in *. cbn [str_mem].
       destruct (str_eqb k0 k) eqn:E; [|exact P].
       apply str_eqb_eq in E. subst k. rewrite G in *. exact P.
+    + destruct (IH _ _ H) as [K P]. split; [exact K|]. intro k. specialize (P k).
+      unfold conv_point in *. cbn [str_mem].
+      destruct (str_eqb k0 k) eqn:E; [|exact P].
+      apply str_eqb_eq in E. subst k. rewrite G in *. exact P.
 Qed.
 
 Lemma convert_keys_err ks : forall c c' e,
@@ -159,12 +163,13 @@ Lemma convert_keys_err ks : forall c c' e,
 Proof.
   induction ks as [|k0 r IH]; intros c c' e H; [discriminate|].
   cbn [convert_keys] in H.
-  destruct (dget c k0) as [[v|t]|] eqn:G.
+  destruct (dget c k0) as [[v|t|o]|] eqn:G.
   - destruct (IH _ _ _ H) as [E (k & t & I & D & N)]. split; [exact E|]. exists k, t. simpl. tauto.
   - destruct (numericdate t) as [n|e'] eqn:N.
     + destruct (IH _ _ _ H) as [E (k & t' & I & D & N')]. split; [exact E|]. exists k, t'. simpl. tauto.
     + injection H as <- <-. split; [apply (numericdate_only_overflow t e' N)|].
       exists k0, t. simpl. tauto.
+  - destruct (IH _ _ _ H) as [E (k & t & I & D & N)]. split; [exact E|]. exists k, t. simpl. tauto.
   - destruct (IH _ _ _ H) as [E (k & t & I & D & N)]. split; [exact E|]. exists k, t. simpl. tauto.
 Qed.
 
@@ -174,19 +179,21 @@ Lemma claims_pv_spec : forall c d, claims_pv c = Some d ->
 Proof.
   induction c as [|[k x] c IH]; intros d H.
   - simpl in H. injection H as <-. split; [reflexivity|]. intro; reflexivity.
-  - simpl in H. destruct x as [v|t]; [|discriminate].
+  - simpl in H. destruct x as [v|t|o]; [|discriminate|discriminate].
     destruct (claims_pv c) as [d'|] eqn:E; [|discriminate]. injection H as <-.
     destruct (IH d' eq_refl) as [K P]. split; [simpl; rewrite K; reflexivity|].
     intro k2. simpl. destruct (str_eqb k k2); [reflexivity|apply P].
 Qed.
 
-Lemma claims_pv_none : forall c, claims_pv c = None -> exists k t, In (k, CDt t) c.
+Lemma claims_pv_none : forall c, claims_pv c = None ->
+  exists k x, In (k, x) c /\ (forall v, x <> CV v).
 Proof.
   induction c as [|[k x] c IH]; simpl; [discriminate|].
-  destruct x as [v|t].
-  - destruct (claims_pv c); [discriminate|]. intros _. destruct (IH eq_refl) as (k' & t & I).
-    exists k', t. right. exact I.
-  - intros _. exists k, t. left. reflexivity.
+  destruct x as [v|t|o].
+  - destruct (claims_pv c); [discriminate|]. intros _. destruct (IH eq_refl) as (k' & x & I & N).
+    exists k', x. split; [right; exact I|exact N].
+  - intros _. exists k, (CDt t). split; [left; reflexivity|discriminate].
+  - intros _. exists k, (CObj o). split; [left; reflexivity|discriminate].
 Qed.
 
 (* ---------- well-formedness ---------- *)
@@ -211,7 +218,7 @@ Proof.
   destruct (claims_pv_spec c d H) as [K _]. rewrite K, U. simpl.
   revert d H K. induction c as [|[k x] c IH]; intros d H K.
   - simpl in H. injection H as <-. reflexivity.
-  - simpl in H. destruct x as [v|t]; [|discriminate].
+  - simpl in H. destruct x as [v|t|o]; [|discriminate|discriminate].
     destruct (claims_pv c) as [d'|] eqn:E; [|discriminate]. injection H as <-.
     cbn [forallb fst snd cval_ok] in F |- *.
     apply andb_true_iff in F. destruct F as [F1 F2].
@@ -241,10 +248,11 @@ Lemma convert_keys_claims_ok ks : forall c c' o,
 Proof.
   induction ks as [|k0 r IH]; intros c c' o O H.
   - simpl in H. injection H as <- _. exact O.
-  - cbn [convert_keys] in H. destruct (dget c k0) as [[v|t]|] eqn:G.
+  - cbn [convert_keys] in H. destruct (dget c k0) as [[v|t|o]|] eqn:G.
     + exact (IH _ _ _ O H).
     + destruct (numericdate t) as [n|e].
       * apply (IH _ _ _ (claims_ok_dset c k0 n O ltac:(unfold dmem; rewrite G; reflexivity)) H).
       * injection H as <- _. exact O.
+    + exact (IH _ _ _ O H).
     + exact (IH _ _ _ O H).
 Qed.
